@@ -95,11 +95,13 @@ def TaskWf (c : Core) : Task → Prop
   | .present _ _ cur => ∀ ob, cur = some ob → NF c ob
   | .destruct ob => NF c ob
   | .dloop ob sup0 _ => NF c ob ∧ (c.objs ob).destructed = false ∧ (∀ s, sup0 = some s → NF c s)
+  | .objloop self rest _ => NF c self ∧ (∀ x ∈ rest, NF c x)
 
 /-- what a well-formed task guarantees about its result (relative to the pointers valid in `c0`) -/
 structure Good (c0 : Core) (r : R) : Prop where
   le : NFle c0 r.w.c
   nocrash : r.out ≠ .crash
+  nohang : r.out ≠ .hang
   ghost : r.w.initBad = false
   wf : WorldWf r.w
   val : ∀ v, r.val = some v → NF r.w.c v
@@ -109,20 +111,16 @@ theorem Good.mono {c0 c1 : Core} {r : R} (h : NFle c0 c1) (g : Good c1 r) : Good
 
 theorem good_leaf {c0 : Core} {w : World} (hle : NFle c0 w.c) (hg : w.initBad = false) (hwf : WorldWf w) :
     Good c0 { w := w } :=
-  { le := hle, nocrash := by simp, ghost := hg, wf := hwf, val := by simp }
+  { le := hle, nocrash := by simp, nohang := by simp, ghost := hg, wf := hwf, val := by simp }
 
 theorem good_val {c0 : Core} {w : World} {v : Option Nat} (hle : NFle c0 w.c) (hg : w.initBad = false) (hwf : WorldWf w)
     (hv : ∀ x, v = some x → NF w.c x) : Good c0 { w := w, val := v } :=
-  { le := hle, nocrash := by simp, ghost := hg, wf := hwf, val := hv }
+  { le := hle, nocrash := by simp, nohang := by simp, ghost := hg, wf := hwf, val := hv }
 
 theorem good_raise {c0 : Core} {w : World} {m : String} (hle : NFle c0 w.c) (hg : w.initBad = false) (hwf : WorldWf w) :
     Good c0 (raise w m) :=
-  { le := by rw [raise_c]; exact hle, nocrash := by simp [raise], ghost := by rw [raise_initBad]; exact hg,
+  { le := by rw [raise_c]; exact hle, nocrash := by simp [raise], nohang := by simp [raise], ghost := by rw [raise_initBad]; exact hg,
     wf := fun g hgg => by rw [raise_c]; rw [raise_cg] at hgg; exact hwf g hgg, val := by simp [raise] }
-
-theorem good_hang {c0 : Core} {w : World} {m : String} (hle : NFle c0 w.c) (hg : w.initBad = false) (hwf : WorldWf w) :
-    Good c0 (hangR w m) :=
-  { le := hle, nocrash := by simp [hangR], ghost := hg, wf := hwf, val := by simp [hangR] }
 
 theorem good_ite {c0 : Core} {p : Prop} [Decidable p] {a b : R} (ha : p → Good c0 a) (hb : ¬ p → Good c0 b) :
     Good c0 (if p then a else b) := by
@@ -209,6 +207,68 @@ theorem superWalk_not_freed {c : Core} (hI : Inv c) (item : Nat) : ∀ (f : Nat)
       | some p =>
         have hp := super_live hI hs
         exact ih p (live_nf hI hp.1 hp.2)
+
+/-- pigeonhole: a duplicate-free list of numbers below `n` has at most `n` entries -/
+theorem nodup_bound : ∀ (n : Nat) (l : List Nat), l.Nodup → (∀ x ∈ l, x < n) → l.length ≤ n
+  | 0, l, _, h => by
+    cases l with
+    | nil => simp
+    | cons a t => exact absurd (h a (by simp)) (by omega)
+  | n + 1, l, hnd, h => by
+    have h1 : (l.erase n).length ≤ n := nodup_bound n (l.erase n) (hnd.erase n) (fun x hx => by
+      have hm := (List.Nodup.mem_erase_iff hnd).mp hx
+      have := h x hm.2
+      omega)
+    have h2 : l.length ≤ (l.erase n).length + 1 := by
+      rw [List.length_erase]; split <;> omega
+    omega
+
+/-- the cycle walk of move_object terminates: the objects it has visited (`vis`) are pairwise different allocated
+    objects, each of them a descendant of the cursor (forest: `Links.acyc`), so there are at most `n` of them -/
+theorem superWalk_not_loop_aux {c : Core} (hI : Inv c) (item : Nat) : ∀ (f : Nat) (vis : List Nat) (cur : Option Nat),
+    vis.Nodup → (∀ v ∈ vis, v < c.n) →
+    (∀ d, cur = some d → d < c.n ∧ d ∉ vis ∧ ∀ v ∈ vis, Anc (supF c) v d) →
+    c.n + 1 ≤ f + vis.length → superWalk c item f cur ≠ .loop := by
+  intro f
+  induction f with
+  | zero =>
+    intro vis cur hnd hlt _ hlen
+    have := nodup_bound c.n vis hnd hlt
+    omega
+  | succ f ih =>
+    intro vis cur hnd hlt hcur hlen
+    cases cur with
+    | none => simp [superWalk]
+    | some d =>
+      obtain ⟨hd, hdv, hanc⟩ := hcur d rfl
+      simp only [superWalk]
+      split
+      · simp
+      · split
+        · simp
+        · refine ih (d :: vis) (c.objs d).super (List.nodup_cons.mpr ⟨hdv, hnd⟩) ?_ ?_ (by simp; omega)
+          · intro v hv
+            rcases List.mem_cons.mp hv with e | hv
+            · subst e; exact hd
+            · exact hlt v hv
+          · intro p hp
+            have hstep : supF c d = some p := hp
+            refine ⟨(super_live hI hp).1, ?_, ?_⟩
+            · intro hm
+              rcases List.mem_cons.mp hm with e | hm
+              · subst e; exact hI.links.acyc p (Anc.base hstep)
+              · exact hI.links.acyc d (Anc.step hstep (hanc p hm))
+            · intro v hv
+              rcases List.mem_cons.mp hv with e | hv
+              · subst e; exact Anc.base hstep
+              · exact Anc.trans (hanc v hv) (Anc.base hstep)
+
+/-- **termination of move_object's `for (ob = dest; ob; ob = ob->super)` walk**: in a state satisfying the invariant
+    the walk from any allocated object reaches the top within `n` steps (outcome `loop` = `hang` is impossible) -/
+theorem superWalk_not_loop {c : Core} (hI : Inv c) (item d : Nat) (hd : d < c.n) :
+    superWalk c item (c.n + 1) (some d) ≠ .loop :=
+  superWalk_not_loop_aux hI item (c.n + 1) [] (some d) List.nodup_nil (by simp)
+    (by intro d' h; cases h; exact ⟨hd, by simp, by simp⟩) (by simp)
 
 /-- `next_inv` of an object is a live member of the same inventory -/
 theorem nextInv_live {c : Core} (hI : Inv c) {ob nx : Nat} (h : nextInv c ob = some nx) :
